@@ -111,6 +111,9 @@ def core_docs():
                           throws=[F(None, "default", T("X1"), "e")]),
                        fn("c", [], throws=[], oneway=False, ret=T("list", T("string"))),
                        fn("e", [F(1, "default", T("i32"), "x")], oneway=True),
+                       fn("o", [], oneway=True, ann=[A("ow", "1")]),
+                       fn("p", [F(None, "optional", T("i32"), "x")], throws=[F(2, "default", T("X1"), "e")], oneway=True,
+                          ann=[A("ow", "2"), A("ow", "3")]),
                        ], extends="V1"),
         service("V3", [fn("a", [F(3, "default", T("i32"), "x", I(4), ann=[A("arg", "1")]),
                                 F(None, "required", T("S1", ann=[A("ty", "2")]), "y"),
